@@ -16,6 +16,7 @@ PROFILES_QUICK = [
     {"block_size": 4096, "full": True},
     {"block_size": 2 << 20, "full": False},
     {"block_size": 2048, "full": True, "sel": 2},  # 4 sectors per block: bitmap still one sector
+    {"block_size": 4096, "full": True, "sel": 3, "bitmap_fill": 0x00},   # sector bitmaps left clear by the writer
     {"block_size": 4 << 20, "full": False, "sel": 3, "table_offset": 2048},  # 8192 sectors per block: 2 bitmap sectors
     {"block_size": 4096, "full": False, "sel": 3, "data_gap": 0xC0000000 * 512},   # table entries (sector numbers) with the top bit set
     {"block_size": 2 << 20, "full": False, "sel": 4, "data_gap": 0xFFF00000 * 512, "when": lambda img: img["kind"] == "dynamic"},
@@ -53,7 +54,7 @@ def build(img, prof, P=None, size_bytes=None):
         ds = (to + 4 * img["n"] + 511) // 512 * 512 + prof["data_gap"]
     vf, info = enc_vhd.build(img, block_size=bs, table_offset=to, data_start=ds, P=(img["n"] + 1 if P is None else P),
                              size_bytes=size_bytes, original_size=prof.get("original_size"), footer_kw=prof.get("footer"), file_id=prof.get("fid", 0),
-                             layout=prof.get("layout", "std"))
+                             layout=prof.get("layout", "std"), bitmap_fill=prof.get("bitmap_fill", 0xFF))
     return disk.Built(open=lambda: _open(vf), cell=info["cell"], size=info["size"], bases={0: info["base"]}, files=[vf], fids={0: prof.get("fid", 0)},
                       note={k: v for k, v in prof.items() if k != "when"}, cb=info["cb"], stride=info["stride"])
 
@@ -79,7 +80,7 @@ def make_trace(tid, rng, nops=30, **opt):
     tail = rng.choice([0, 0, 512, bs // 2, bs - 512, 3 * 512])
     size_b = n * bs - tail
     img = {"kind": kind, "n": n, "cb": 1, "bat": {i: bat[i] for i in range(n)}, "size": n, "foot511": rng.random() < 0.25}
-    prof = {"block_size": bs, "table_offset": rng.choice([1536, 2048, 4096]), "layout": rng.choice(["std", "std", "bat-last", "hdr-far"]), "original_size": rng.choice([None, size_b + bs, 0]),
+    prof = {"block_size": bs, "bitmap_fill": rng.choice([0xFF, 0xFF, 0x00, 0x0F, [0x00, 0xFF, 0xA5]]), "table_offset": rng.choice([1536, 2048, 4096]), "layout": rng.choice(["std", "std", "bat-last", "hdr-far"]), "original_size": rng.choice([None, size_b + bs, 0]),
             # footer fields that do not influence the mapping
             "fid": rng.randrange(0, 0x90),   # identity of this image
             "footer": {"features": rng.choice([2, 2, 3]), "uid": bytes(rng.randrange(256) for _ in range(16)), "timestamp": rng.getrandbits(32),
